@@ -60,6 +60,20 @@ fn get_file_or_stdin(path: &str) -> anyhow::Result<Box<dyn Read>> {
     Ok(result)
 }
 
+// A construct may end on a later line than it starts on (a literal whose description follows
+// on the next line, a multi-line right-hand side); its end column then refers to that later line
+// and can be smaller than the start column, which the snippet renderer cannot digest.  Underline
+// up to the end of the first line instead.
+fn span_columns(span: &HumanSpan, line: &str) -> (usize, usize) {
+    let start = span.column_start_machine();
+    let end = span.column_end_machine();
+    if end > start {
+        (start, end)
+    } else {
+        (start, line.chars().count().max(start + 1))
+    }
+}
+
 struct ErrMsg {
     err: chic::Error,
 }
@@ -73,13 +87,12 @@ impl ErrMsg {
 
     fn error(self, span: &HumanSpan, source: &str, what: &str) -> Self {
         Self {
-            err: self.err.error(
-                span.line,
-                span.column_start_machine(),
-                span.column_end_machine(),
-                source.lines().nth(span.line_machine()).unwrap(),
-                what,
-            ),
+            err: {
+                let line = source.lines().nth(span.line_machine()).unwrap_or("");
+                let (column_start, column_end) = span_columns(span, line);
+                self.err
+                    .error(span.line, column_start, column_end, line, what)
+            },
         }
     }
 
@@ -113,13 +126,12 @@ impl WarnMsg {
 
     fn warning(self, span: &HumanSpan, source: &str, what: &str) -> Self {
         Self {
-            warning: self.warning.warning(
-                span.line,
-                span.column_start_machine(),
-                span.column_end_machine(),
-                source.lines().nth(span.line_machine()).unwrap(),
-                what,
-            ),
+            warning: {
+                let line = source.lines().nth(span.line_machine()).unwrap_or("");
+                let (column_start, column_end) = span_columns(span, line);
+                self.warning
+                    .warning(span.line, column_start, column_end, line, what)
+            },
         }
     }
 
